@@ -413,6 +413,8 @@ def to_iter(it, v):
         return IterV(v.obj.items)
     if isinstance(v, StructV) and v.adt == OPTION:
         return IterV([it.force(v.fields["0"])] if v.variant == "Some" else [])
+    if isinstance(v, SymV):
+        return IterV([], unknown=v.name)       # a foreign / generic iterable: unknown items
     raise Unrecognised("not iterable: %r" % (v,))
 
 
@@ -825,3 +827,180 @@ def partial_ord_other(it, args, n, f):
     l = it.force(deref(it, args[0]))
     r = it.force(deref(it, args[1]))
     return it.binop({"gt": "Gt", "le": "Le", "ge": "Ge"}[f.get("name")], l, r, n)
+
+
+# ------------------------------------------------------------------ sequences compared / consumed as a whole (C19)
+def walker_desc(it, v):
+    """description of a whole-collection walker or collection reference, for the sequence combinators"""
+    v = it.val_force(v)
+    for _ in range(4):
+        if isinstance(v, RefV):
+            v = it.force(v.cell)
+    return repr(v).replace("?", "")
+
+
+@model("std::iter::Iterator::eq", doc="both sequences compared to exhaustion with the items' own equality: one lazy boolean")
+def iter_eq(it, args, n, f):
+    a, b = walker_desc(it, args[0]), walker_desc(it, args[1])
+    it.emit("seq_eq", a=a, b=b)
+    return BoolV(it.choose("bool:seq_eq", [False, True]))
+
+
+class ZipV(SymV):
+    pass
+
+
+@model("std::iter::Iterator::zip", doc="pairs two sequences, stops at the shorter")
+def iter_zip(it, args, n, f):
+    a, b = walker_desc(it, args[0]), walker_desc(it, args[1])
+    z = ZipV("zip(%s|%s)" % (a, b))
+    z.parts = (a, b)
+    return z
+
+
+@model("std::iter::Iterator::all", doc="all over a zipped pair of sequences: the predicate on one symbolic pair")
+def iter_all(it, args, n, f):
+    src = it.val_force(args[0])
+    if isinstance(src, ZipV):
+        pair = TupleV([Cell(SymV("item_a"), "0"), Cell(SymV("item_b"), "1")])
+        r = it.call_value(args[1], [pair], {"ty": None})
+        it.emit("zip_all", a=src.parts[0], b=src.parts[1], pred=repr(r))
+        return BoolV(it.choose("bool:zip_all", [False, True]))
+    if isinstance(src, StructV):
+        d = walker_desc(it, src)
+        item = SymV("item_a")
+        r = it.call_value(args[1], [item], {"ty": None})
+        it.emit("seq_all", a=d, pred=repr(r))
+        return BoolV(it.choose("bool:seq_all", [False, True]))
+    raise Unrecognised("all over %r" % (src,))
+
+
+@model("core::tuple::<impl std::cmp::PartialEq for (U, T)>::eq", "std::cmp::impls::<impl std::cmp::PartialEq<&B> for &A>::eq",
+       doc="the items' own equality")
+def own_eq(it, args, n, f):
+    a = it.val_force(args[0])
+    b = it.val_force(args[1])
+    while isinstance(a, RefV):
+        a = it.force(a.cell)
+    while isinstance(b, RefV):
+        b = it.force(b.cell)
+    return SymV("own_eq(%r,%r)" % (a, b))
+
+
+@model("<prefix_trie::inner::Table<P, T> as std::default::Default>::default", doc="fresh arena: one root slot, zero-length prefix, no value, no children")
+def table_default(it, args, n, f):
+    ar = it.arena(it.fresh("table"))
+    root = it.force(ar.node(IntV(0)))
+    root.fields["value"].value = none()
+    root.fields["left"].value = none()
+    root.fields["right"].value = none()
+    root.fields["prefix"].value = SymV("zero()")
+    it.emit("table_default", table=ar.name)
+    return TableV(ar)
+
+
+@model("std::iter::Iterator::for_each", doc="the function applied to every item; an unknown source yields one symbolic item")
+def iter_for_each(it, args, n, f):
+    src = it.val_force(args[0])
+    if isinstance(src, IterV) and src.unknown is None:
+        for x in src.items:
+            it.call_value(args[1], [x], {"ty": None})
+        return UnitV()
+    if isinstance(src, IterV):
+        fn_ = it.val_force(args[1])
+        ety = None
+        if isinstance(fn_, ClosureV):
+            ps = [p for p in it.facts.bodies[fn_.path]["thir"]["params"] if p.get("pat") is not None]
+            ety = ps[0]["ty"] if ps else None
+        item = UnkV(ety, "item1") if ety is not None else SymV("item1")
+        it.emit("iter_item", src=src.unknown, item="item1")
+        it.call_value(args[1], [item], {"ty": None})
+        return UnitV()
+    raise Unrecognised("for_each over %r" % (src,))
+
+
+@model("std::iter::Iterator::next", doc="next item of a finite / unknown iterator value")
+def iter_next(it, args, n, f):
+    c = deref(it, args[0])
+    src = it.force(c)
+    while isinstance(src, RefV):
+        src = it.force(src.cell)
+    if isinstance(src, IterV):
+        if src.items:
+            return some(src.items.pop(0))
+        if src.unknown is None:
+            return none()
+        src.count = getattr(src, "count", 0) + 1
+        st = it.choose("next:%s#%d" % (src.unknown, src.count), ["N", "S"])
+        if st == "N":
+            src.unknown = None
+            return none()
+        ety = it.ty(n["ty"])["a"][0]
+        nm = "item%d" % src.count
+        it.emit("iter_item", src=src.unknown, item=nm)
+        return some(UnkV(ety, nm))
+    raise Unrecognised("next of %r" % (src,))
+
+
+@model("<std::collections::HashMap<K, V, S> as std::iter::FromIterator<(K, V)>>::from_iter",
+       "<std::collections::HashSet<T, S> as std::iter::FromIterator<T>>::from_iter", doc="collects a whole sequence")
+def hash_from_iter(it, args, n, f):
+    d = walker_desc(it, args[0])
+    it.emit("collect", src=d)
+    return SymV("collected(%s)" % d)
+
+
+def _opaque_result(name):
+    def m(it, args, n, f):
+        it.emit("foreign", callee=name, args=[walker_desc(it, a) for a in args])
+        if n.get("ty") is not None:
+            c = Cell(UnkV(n["ty"], "%s()" % name), "%s()" % name)
+            return it.force(c)
+        return SymV("%s()" % name)
+    return m
+
+
+for _p, _nm in (("serde::ser::impls::<impl serde::Serialize for std::collections::HashMap<K, V, H>>::serialize", "serialize"),
+                ("serde::ser::impls::<impl serde::Serialize for std::collections::HashSet<T, H>>::serialize", "serialize"),
+                ("serde::de::impls::<impl serde::Deserialize<'de> for std::collections::HashMap<K, V, S>>::deserialize", "deserialize"),
+                ("serde::de::impls::<impl serde::Deserialize<'de> for std::collections::HashSet<T, S>>::deserialize", "deserialize")):
+    MODELS[_p] = _opaque_result(_nm)
+    MODEL_DOC[_p] = "foreign (serde) call: opaque result of the declared type"
+
+
+@model("<std::result::Result<T, E> as std::ops::Try>::branch", doc="Ok(v)→Continue(v), Err(e)→Break(Err(e))")
+def res_branch(it, args, n, f):
+    r = it.val_force(args[0])
+    if isinstance(r, StructV) and r.adt == RESULT:
+        if r.variant == "Ok":
+            return StructV(CONTROLFLOW, "Continue", {"0": r.fields["0"]})
+        return StructV(CONTROLFLOW, "Break", {"0": Cell(r, "residual")})
+    raise Unrecognised("? on %r" % (r,))
+
+
+@model("<std::result::Result<T, F> as std::ops::FromResidual<std::result::Result<std::convert::Infallible, E>>>::from_residual",
+       doc="the error, re-wrapped")
+def res_from_residual(it, args, n, f):
+    r = it.val_force(args[0])
+    if isinstance(r, StructV) and r.adt == RESULT:
+        return r
+    return StructV(RESULT, "Err", {"0": Cell(r, "err")})
+
+
+@model("<std::vec::Vec<T, A> as std::clone::Clone>::clone", doc="a new vector with clones of the items (no sharing)")
+def vec_clone(it, args, n, f):
+    v = vec_of(it, args[0])
+    if isinstance(v, ArenaVecV):
+        from .absint import Arena
+        new = it.arena("clone(%s)" % v.arena.name)
+        it.emit("vec_clone", src=v.arena.name, dst=new.name, what="nodes")
+        return ArenaVecV(new)
+    if isinstance(v, VecV):
+        it.emit("vec_clone", src=v.obj.name, dst="clone(%s)" % v.obj.name, what="vec")
+        return VecV(VecObj("clone(%s)" % v.obj.name, list(v.obj.items), v.obj.base))
+    raise Unrecognised("clone of %r" % (v,))
+
+
+@model("std::cell::UnsafeCell::<T>::new", doc="wraps the value (identity in the abstraction)")
+def unsafecell_new(it, args, n, f):
+    return args[0]
